@@ -36,6 +36,7 @@ def meta(tier, seed):
                   "protocol-4 pickles restored in a fresh interpreter give the same outputs as the original in-process",
         "bounds": {"bfs_depth": 2 if tier == "quick" else "3 (int labels), 2 (str labels)", "continuation_depth": 1,
                    "methods": (QUICK_METHODS if tier == "quick" else METHODS) + ["pickle4 -> fresh interpreter"], "labels": ["int", "str"],
+                   "n_jobs": "1; additionally 2 (joblib model) for ts/tree, eg5/tree, ts/rad, eg5/clu, lts1/knn at depth 2",
                    "binarizer_histories": "Thompson Sampling with / without a binarizer under %s: every history of <= 3 "
                                           "calls over %d operations (add_arm with a binarizer, non-binary rewards), "
                                           "every continuation of <= 2 calls over %d operations" % (
@@ -51,6 +52,10 @@ def shards(tier, seed):
         for labels in (("int",) if tier == "quick" else ("int", "str")):
             out.append({"ln": ln, "nn": nn, "labels": labels, "depth": 2 if (tier == "quick" or labels == "str") else 3,
                         "cdepth": 1, "all_methods": tier != "quick", "seed": 13 + seed})
+    # bandits configured with two jobs: a copy must keep every hyper-parameter, the number of jobs included
+    for ln, nn in (("ts", "tree"), ("eg5", "tree"), ("ts", "rad"), ("eg5", "clu"), ("lts1", "knn")):
+        out.append({"ln": ln, "nn": nn, "labels": "int", "depth": 2, "cdepth": 1, "all_methods": tier != "quick",
+                    "seed": 13 + seed, "n_jobs": 2})
     # Thompson Sampling whose binarizer is installed or replaced by add_arm: the one hyper-parameter that changes
     # after construction.  Histories over HB_OPS up to depth 3, continuations over CB_OPS up to depth 2.
     for ln in ("ts", "tsb"):
@@ -173,8 +178,16 @@ def run_binarizer_shard(shard):
 def run_shard(shard):
     if shard.get("kind") == "binarizer":
         return run_binarizer_shard(shard)
+    if shard.get("n_jobs", 1) > 1:
+        from .. import sched
+        with sched.model():                      # two jobs per prediction (joblib model, default schedule)
+            return _run_shard(shard)
+    return _run_shard(shard)
+
+
+def _run_shard(shard):
     ln, nn, labels = shard["ln"], shard["nn"], shard["labels"]
-    cfg = A.config(ln, nn, arms=S.initial_arms(labels), seed=shard["seed"])
+    cfg = A.config(ln, nn, arms=S.initial_arms(labels), seed=shard["seed"], n_jobs=shard.get("n_jobs", 1))
     cf = ops.is_context_free(cfg)
     acc = report.Acc(ID, replay, shard)
     jobs, job_meta = [], []
@@ -196,6 +209,8 @@ def run_shard(shard):
                               {"cfg": cfg, "history": hist, "method": method, "cont": cont}, msg)
         if len(hist) == 2:
             acc.sample({"cfg": cfg, "history": hist, "methods": METHODS, "continuations": len(conts)})
+        if shard.get("n_jobs", 1) > 1:
+            return                                            # the fresh-interpreter restore is exercised with one job
         # fresh-interpreter job: protocol-4 pickle of the never-copied original
         try:
             blob = pickle.dumps(original(cfg, hist), protocol=4)
@@ -239,6 +254,10 @@ def run_shard(shard):
 
 
 def replay(w):
+    if w["cfg"].get("n_jobs", 1) > 1 and not w.get("_in_model"):
+        from .. import sched
+        with sched.model():
+            return replay(dict(w, _in_model=True))
     cfg = w["cfg"]
     cf = ops.is_context_free(cfg)
     hist = w["history"]
